@@ -119,7 +119,14 @@ def replay(history, collect=None):
         if step['op'] == 'set':
             cells = []
             for (k, v, addressing) in step['batch']:
-                cells.append(make_cell(wb, k, addressing, wbk.dec(v)))
+                if step.get('rmw'):
+                    # read - modify - write with one and the same Cell object
+                    cell_ = make_cell(wb, k, addressing)
+                    wbk.outcome(lambda: ex.get_cell(cell_))
+                    cell_.value = wbk.dec(v)
+                    cells.append(cell_)
+                else:
+                    cells.append(make_cell(wb, k, addressing, wbk.dec(v)))
             if step.get('touch'):
                 # callers may keep their cells in sets or log them before handing them over (Cell is hashable by design)
                 for cell_ in cells:
@@ -338,7 +345,7 @@ def build_machine(rec, histories_out):
                 if isinstance(now, (bool, int)) and now in (0, 1) and data.draw(st.integers(0, 1)) == 0:
                     v = int(now) if isinstance(now, bool) else bool(now)
                 batch.append([k, v, data.draw(addressing)])
-            self.history['steps'].append({'op': 'set', 'batch': batch, 'touch': data.draw(st.integers(0, 3)) == 0})
+            self.history['steps'].append({'op': 'set', 'batch': batch, 'touch': data.draw(st.integers(0, 3)) == 0, 'rmw': data.draw(st.integers(0, 3)) == 0})
 
         @precondition(lambda self: self.history is not None and any(s['op'] == 'set' for s in self.history['steps'])
                       and self.history['steps'][-1]['op'] != 'query')
